@@ -1,6 +1,6 @@
 """C15 - see DESIGN.md §2 C15.  Deductive parts (contracts/) are added to this module as they are built; the bounded stand-in is checks/b15.py."""
 from vlib import env
-from checks.common import bounded_part, want, contract_sources, make_replay, t_oblig
+from checks.common import anchored, bounded_part, want, contract_sources, make_replay, t_oblig
 from pysym.harness import run_cases
 
 LEVEL = 'exploration'
@@ -19,9 +19,11 @@ def deductive(run):
 def main(run):
     env.setup()
     if want(run, 'T'):
+      with anchored(run, 'C15/T'):
         from contracts import tablelemmas
         tablelemmas.C15(run)
     if want(run, 'P') or want(run, 'T'):
+      with anchored(run, 'C15/P'):
         deductive(run)
     bounded_part(run, 'C15')
     return FINISH
